@@ -236,6 +236,16 @@ def suite_cf_storage(ctx):
                             if not np.array_equal(np.isfinite(lo_o), np.isfinite(lo_g)) or (dl.size and (dl.max() > 1e-6 or np.abs(la_g[fin] - la_o[fin]).max() > 1e-6)):
                                 probs.append(f"pixel (r, c) of the loaded area is not located where element (r, c) of the stored array is "
                                              f"(max dlon {float(dl.max()) if dl.size else None} deg); loaded extent {[float(v) for v in got.area_extent]}")
+                        if ctx.M:
+                            rep = ctx.M.ask("cf", 1000 if unit == "km" else 1, [_fr(v) for v in np.asarray(sx, float)], [_fr(v) for v in np.asarray(sy, float)])
+                            if rep.startswith("err"):
+                                ctx.disagree("cf-storage", inp, "area", rep)
+                            else:
+                                t_ = rep.split()
+                                mext = [Fraction(v) for v in t_[:4]]
+                                sc_ = max(1, max(abs(v) for v in mext))
+                                if any(abs(_fr(a_) - b_) > sc_ * Fraction(1, 10 ** 9) for a_, b_ in zip(got.area_extent, mext)) or (int(t_[4]), int(t_[5])) != (got.width, got.height):
+                                    ctx.disagree("cf-storage", inp, [float(v) for v in got.area_extent], [float(v) for v in mext], "extent / shape of the loaded area differ from the model's")
                         if probs:
                             ctx.fail("utils.load_cf_area", f"coordinates stored as {dname} ({where}), units {unit}: " + "; ".join(probs), inp,
                                      {"extent": [float(v) for v in got.area_extent], "shape": list(got.shape)}, tags={"storage": dname, "where": where}, size=5)
